@@ -136,39 +136,16 @@ Section Field.
   Variable stq : buf -> N -> N -> buf.
   Variable qw : N.
 
-  (* Avtp_GetField(fieldDescriptors, numFields, pdu, field): the table is a
-     list of descriptors, a null pdu is None.  [field] is the value after the
-     conversion to the parameter type. *)
-  Definition get_field (tbl:list desc) (numFields:N) (pdu:option buf) (field:N) : outcome N :=
-    match pdu with
-    | None => Ok 0
-    | Some b =>
-      if field <? numFields then
-        match nth_error tbl (N.to_nat field) with
-        | None => Unmodelled          (* table shorter than numFields: the C code reads past the table *)
-        | Some d =>
-          match get_desc ldq stq qw d b with
-          | None => Unmodelled
-          | Some (v, tr) => match first_oob b tr with Some q => OOB q | None => Ok v end
-          end
-        end
-      else Ok 0
+  (* read / write through one descriptor on a non-null PDU *)
+  Definition get_via (d:desc) (b:buf) : outcome N :=
+    match get_desc ldq stq qw d b with
+    | None => Unmodelled
+    | Some (v, tr) => match first_oob b tr with Some q => OOB q | None => Ok v end
     end.
-
-  Definition set_field (tbl:list desc) (numFields:N) (pdu:option buf) (field:N) (v:N) : outcome (option buf) :=
-    match pdu with
-    | None => Ok None
-    | Some b =>
-      if field <? numFields then
-        match nth_error tbl (N.to_nat field) with
-        | None => Unmodelled
-        | Some d =>
-          match set_desc ldq stq qw d b v with
-          | None => Unmodelled
-          | Some (b', tr) => match first_oob b tr with Some q => OOB q | None => Ok (Some b') end
-          end
-        end
-      else Ok (Some b)
+  Definition set_via (d:desc) (b:buf) (v:N) : outcome buf :=
+    match set_desc ldq stq qw d b v with
+    | None => Unmodelled
+    | Some (b', tr) => match first_oob b tr with Some q => OOB q | None => Ok b' end
     end.
 End Field.
 
